@@ -214,6 +214,140 @@ MUTANTS = {
                             break""",
         """                            found_lineno = sub_tb.tb_lineno""")],
         why='E4: failing line taken from the innermost doctest frame (helper) instead of the calling statement'),
+
+    # ------------------------------------------------------------------ C10
+    'c10_nfailed_off_by_one': dict(prop='C10', edits=[(RU,
+        """    n_failed = sum(s['failed'] for s in summaries)""",
+        """    n_failed = sum(s['failed'] for s in summaries[:-1]) if len(summaries) > 2 else sum(s['failed'] for s in summaries)""")],
+        why='the last doctest of a module with 3+ doctests is not counted when it fails'),
+    'c10_exit_status_from_passed': dict(prop='C10', edits=[(MA,
+        """    n_failed = run_summary.get('n_failed', 0)
+    if n_failed > 0:
+        return 1""",
+        """    n_failed = run_summary.get('n_failed', 0)
+    n_passed = run_summary.get('n_passed', 0)
+    if n_failed > 0 and n_passed == 0:
+        return 1""")],
+        why='exit status 0 when something passed although something failed'),
+    'c10_disabled_filter_on_named': dict(prop='C10', edits=[(RU,
+        """                if gather_all and example.is_disabled():
+                    continue""",
+        """                if example.is_disabled():
+                    continue""")],
+        why='naming a force-disabled doctest no longer runs it'),
+    'c10_summaries_appended_twice_on_skip': dict(prop='C10', edits=[(RU,
+        """            if summary['skipped']:
+                pass""",
+        """            if summary['skipped']:
+                summaries.append(summary)""")],
+        why='skipped doctests are counted twice'),
+    'c10_failed_list_dedup_by_callname': dict(prop='C10', edits=[(RU,
+        """            else:
+                failed.append(example)""",
+        """            else:
+                if not any(f.callname == example.callname for f in failed):
+                    failed.append(example)""")],
+        why='two failing doctests of the same callable appear once in the failed list'),
+    'c10_named_prefix_match': dict(prop='C10', edits=[(RU,
+        """            if gather_all or command in example.valid_testnames:""",
+        """            if gather_all or any(n.startswith(command) for n in example.valid_testnames):""")],
+        why='naming f1 also runs f10 / K0 also runs K0.meth0'),
+
+    # ------------------------------------------------------------------ C11
+    'c11_namespace_not_cleared': dict(prop='C11', edits=[(DE,
+        """        # Clear the global namespace so doctests don't leak memory
+        self.global_namespace.clear()""",
+        """        # Clear the global namespace so doctests don't leak memory
+        pass""")],
+        why='E7: names of a previous run of the same object stay visible'),
+    'c11_unmatched_not_reset': dict(prop='C11', edits=[(DE,
+        """        self.logged_stdout.clear()
+        self._unmatched_stdout = []
+""",
+        """        self.logged_stdout.clear()
+""")],
+        why='E14: want-less tail output of the previous run can satisfy a want of the next run of the same object'),
+    'c11_shallow_copy_defaults': dict(prop='C11', edits=[(DI,
+        """        self._global_state = copy.deepcopy(DEFAULT_RUNTIME_STATE)""",
+        """        self._global_state = copy.copy(DEFAULT_RUNTIME_STATE)""")],
+        why='the REQUIRES set of the module-level default is shared by all runs'),
+    'c11_module_dict_as_namespace': dict(prop='C11', edits=[(DE,
+        """            test_globals.update(self.module.__dict__)""",
+        """            test_globals = self.global_namespace = self.module.__dict__""")],
+        why='doctest assignments rebind module globals and are visible to other doctests'),
+    'c11_runstate_reused_across_runs': dict(prop='C11', edits=[(DE,
+        """        runstate = self._runstate = directive.RuntimeState(default_state)""",
+        """        if self._runstate is None:
+            self._runstate = directive.RuntimeState(default_state)
+        runstate = self._runstate""")],
+        why='directive state of the previous run of the same object (SKIP, REQUIRES, flags) carries over'),
+    'c11_config_default_state_mutated': dict(prop='C11', edits=[(DI,
+        """        self._global_state = copy.deepcopy(DEFAULT_RUNTIME_STATE)
+        if default_state:
+            self._global_state.update(default_state)""",
+        """        if default_state is None:
+            default_state = {}
+        for k, v in copy.deepcopy(DEFAULT_RUNTIME_STATE).items():
+            default_state.setdefault(k, v)
+        self._global_state = default_state""")],
+        why='the config dict shared by reference between examples becomes the live runtime state'),
+
+    # ------------------------------------------------------------------ C04
+    'c04_revert_f2': dict(prop='C04', edits=[(DI,
+        """                    if key not in state:
+                        # An inline directive only impacts the current line:
+                        # modify a copy of the persistent set.
+                        state[key] = set(self._global_state[key])""",
+        """                    if key not in state and False:
+                        state[key] = set(self._global_state[key])""")],
+        why='finding F2 back'),
+    'c04_overlay_not_cleared': dict(prop='C04', edits=[(DI,
+        """        # Clear the previous inline state
+        self._inline_state.clear()""",
+        """        # Clear the previous inline state
+        if any(d.inline for d in directives):
+            self._inline_state.clear()""")],
+        why='an inline directive stays in force until the next inline directive'),
+    'c04_inline_written_to_persistent': dict(prop='C04', edits=[(DI,
+        """                if directive.inline:
+                    state = self._inline_state
+                else:
+                    state = self._global_state""",
+        """                if directive.inline and key != 'IGNORE_WANT':
+                    state = self._inline_state
+                else:
+                    state = self._global_state""")],
+        why='inline IGNORE_WANT becomes persistent'),
+    'c04_requires_ignored_by_skip_test': dict(prop='C04', edits=[(DE,
+        """                if runstate['SKIP'] or len(runstate['REQUIRES']) > 0:""",
+        """                if runstate['SKIP'] or len(runstate._global_state['REQUIRES']) > 0:""")],
+        why='skip test looks at the persistent requirement set only (inline REQUIRES ignored)'),
+    'c04_defaults_ignored_when_false': dict(prop='C04', edits=[(DI,
+        """        if default_state:
+            self._global_state.update(default_state)""",
+        """        if default_state:
+            self._global_state.update({k: v for k, v in default_state.items() if v})""")],
+        why='default options that switch a flag off are dropped'),
+    'c04_directive_regex_over_raw_text': dict(prop='C04', edits=[(DI,
+        """        for comment in static.extract_comments(text):""",
+        """        for comment in re.findall(r'#.*', text):""")],
+        why='directive-looking text inside string literals is taken as a directive'),
+    'c04_inline_break_only_before': dict(prop='C04', edits=[(PA,
+        """                if directives[0].inline:
+                    if s2 is not None:
+                        break_linenos.append(s2)""",
+        """                if directives[0].inline and len(directives) > 1:
+                    if s2 is not None:
+                        break_linenos.append(s2)""")],
+        why='an inline directive with a single option also covers the following statements of the chunk'),
+    'c04_minus_skip_inline_noop': dict(prop='C04', edits=[(DI,
+        """                elif action == 'assign':
+                    state[key] = value""",
+        """                elif action == 'assign':
+                    if directive.inline and value is False and key == 'SKIP':
+                        continue
+                    state[key] = value""")],
+        why='inline -SKIP does not re-enable a single statement'),
 }
 
 # Behaviour-preserving (with respect to the properties) edits: every check must stay green.
